@@ -5,6 +5,7 @@ import (
 	"go/constant"
 	"go/token"
 	"go/types"
+	"sort"
 	"strings"
 
 	"golang.org/x/tools/go/ssa"
@@ -1076,7 +1077,9 @@ func checkC09NoSaveAfterGrowth(c *Ctx) {
 	n := 0
 	for i, w := range callsTo(AC, false, "(*history.Sources).Write") {
 		n++
-		leak := pathAvoiding(AC, w.(ssa.Instruction), isReturn, func(x ssa.Instruction) bool { return isSkip(x) || isReset(x) || isCallTo(x, "(*history.Sources).SkipSave") })
+		leak := pathAvoiding(AC, w.(ssa.Instruction), isReturn, func(x ssa.Instruction) bool {
+			return isSkip(x) || isReset(x) || isCallTo(x, "(*history.Sources).SkipSave")
+		})
 		r.Check(leak == nil, rule, siteKey(AC, "Write", i), p.IPos(w.(ssa.Instruction)), "the closing save is skipped after the write", "Accept writes the accepted line to the history sources and returns with the closing save of the command still armed: that save files the accepted text under the walk position, which now designates the next newer entry, and going up in later calls shows the accepted line twice and hides a stored entry")
 	}
 	if n == 0 {
@@ -1250,4 +1253,64 @@ func checkC06InitClamps(c *Ctx) {
 		return false
 	})
 	r.Check(w == nil && after, rule, fnName(IN)+":clamp-after-history-init", p.IPos(hi[0].(ssa.Instruction)), "CheckCommand follows history.Init in Vi command mode", "with a Vi command keymap as the main keymap, init returns without putting the cursor on a character after history.Init installed the kept / fetched line (cursor at its end): Readline waits with the cursor past the last character")
+}
+
+// ---- C16.kill-repositions-cursor (round 7)
+func checkC16KillRepositions(c *Ctx) {
+	p, r := c.P, c.R
+	const rule = "C16.kill-repositions-cursor"
+	r.Rule(rule, "K5", "every command that removes text through Selection.Cut also places the cursor (a Cursor.Set / Move / BeginningOfLine … call, before the cut for the backward kills, after it for the others): Selection.Cut leaves the cursor where it was, so a kill that never touches the cursor — kill-region with point at the end of the region — leaves it past the place of the cut, and the yank that follows inserts the text somewhere else", 5)
+	movers := map[string]bool{}
+	for _, f := range p.RepoFuncs {
+		n := fnName(f)
+		if strings.HasPrefix(n, "(*core.Cursor).") {
+			// a mutator of the position: stores Cursor.pos (directly)
+			eachInstr(f, func(in ssa.Instruction) {
+				if _, ok := isFieldStore(in, "core.Cursor", "pos"); ok {
+					movers[n] = true
+				}
+			})
+		}
+	}
+	reg := p.Registry()
+	var names []string
+	for n := range reg.Cmds {
+		names = append(names, n)
+	}
+	sort.Strings(names)
+	seen := map[*ssa.Function]bool{}
+	k := 0
+	for _, name := range names {
+		f := reg.Cmds[name]
+		if f == nil || seen[f] {
+			continue
+		}
+		seen[f] = true
+		cuts := callsTo(f, true, "(*core.Selection).Cut")
+		if len(cuts) == 0 {
+			continue
+		}
+		k++
+		r.Fn(fnName(f))
+		moves := false
+		for _, fn := range withAnons(f) {
+			for _, cl := range allCalls(fn, false) {
+				if movers[calleeName(cl)] {
+					moves = true
+				}
+				// a helper of the shell that moves the cursor (viSelect*, backwardWord …) counts too
+				if h := staticCallee(cl); h != nil && inRepo(h) && len(h.Blocks) > 0 && strings.HasPrefix(fnName(h), "(*readline.Shell).") {
+					for _, c2 := range allCalls(h, false) {
+						if movers[calleeName(c2)] {
+							moves = true
+						}
+					}
+				}
+			}
+		}
+		r.Check(moves, rule, "command:"+name, p.Pos(f.Pos()), "places the cursor", name+" cuts the selected text and never places the cursor: Selection.Cut leaves it where it was, past the cut when point was at the end of the region — the following yank does not put the text back where it was")
+	}
+	if k == 0 {
+		r.Unk(rule, "commands", "-", "no command cuts through Selection.Cut: anchor changed")
+	}
 }
